@@ -32,6 +32,9 @@ CONFIGS = {
     "prod-hsw": ("g++", PROD + HSW),
     "asan-wsm": ("g++", ASAN + WSM),
     "prod-wsm": ("g++", PROD + WSM),
+    # the adaptive chunk policy clamps its growth at SONIC_ALLOCATOR_MAX_CHUNK_CAPACITY (64 KiB by default, far above the
+    # explorer's 200-byte requests); the macro is user-overridable, so a build with a cap of 128 brings the clamp into range
+    "asan-hsw-cap128": ("g++", ASAN + HSW + ["-DSONIC_ALLOCATOR_MAX_CHUNK_CAPACITY=128"]),
     "asan-dyn": ("g++", ASAN + WSM + ["-DSONIC_DYNAMIC_DISPATCH"]),
     "prod-dyn": ("g++", PROD + WSM + ["-DSONIC_DYNAMIC_DISPATCH"]),
     "tsan": ("clang++", ["-O1", "-g", "-fsanitize=thread"] + HSW),
@@ -73,13 +76,15 @@ CHECKS = {
                 (J("jsonenum", "prod-wsm", ["--prop", "C01"]) if t == "thorough" else []),
                 rule="Document::Parse(data,len) from an exact-size buffer vs the reference RFC 8259 recogniser: accept <=> reference accepts; success => code 0, offset==len; failure => null document, parse code, offset<=len, fault class where unambiguous. Non-trivial: the reference consumed >= 2 tokens or accepted."),
     "C02": dict(level="exploration", engine="jsonenum",
-                jobs=lambda t: J("jsonenum", "asan-hsw", ["--prop", "C02"], fills=FILLS_Q if t == "quick" else FILLS_T),
-                rule="Parse under ASan for pool / freeing / ledger-tracking allocators, malloc fill bytes making unconstructed nodes decode as object/array/owned string; survive, heap balance restored after the document dies, ledger exact, reuse and reparse behave like fresh. Non-trivial: text of >= 2 bytes."),
+                jobs=lambda t: J("deepnest", "prod-hsw", [], label="prod-hsw/very-deep") + J("jsonenum", "asan-hsw", ["--prop", "C02"], fills=FILLS_Q if t == "quick" else FILLS_T),
+                budget=dict(quick=240, thorough=3000),
+                rule="Parse under ASan for pool / freeing / ledger-tracking allocators, malloc fill bytes making unconstructed nodes decode as object/array/owned string; survive, heap balance restored after the document dies, ledger exact, reuse and reparse behave like fresh. Non-trivial: text of >= 2 bytes. Second job: texts nested 2*10^4 and 10^6 deep on an 8 MiB stack (production build), results known by construction, stack exhaustion attributed to the call in progress."),
     "C03": dict(level="exploration", engine="jsonenum",
                 jobs=lambda t: J("jsonenum", "prod-hsw", ["--prop", "C03"]) + J("jsonenum", "asan-wsm" if t == "thorough" else "prod-wsm", ["--prop", "C03"]),
                 rule="every accepted text: document compared with the reference tree through the public accessors only (type tests, Size, iteration order incl. duplicates, string bytes, number kind and bits, FindMember first match, operator[], AtPointer). Non-trivial: accepted text whose root is a container or longer than 4 bytes."),
     "C10": dict(level="exploration", engine="ondemand",
-                jobs=lambda t: J("ondemand", "prod-hsw", ["--prop", "C10"]) + J("ondemand", "asan-hsw", ["--prop", "C10"]) + J("ondemand", "prod-wsm", ["--prop", "C10"]),
+                jobs=lambda t: J("ondemand", "prod-hsw", ["--prop", "C10"]) + J("ondemand", "asan-hsw", ["--prop", "C10"]) + J("ondemand", "prod-wsm", ["--prop", "C10"]) + J("ondemand", "prod-dyn", ["--prop", "C10"]),
+                budget=dict(quick=300, thorough=3000),
                 rule="differential: for every valid text x pointer path, GetOnDemand succeeds <=> AtPointer on the fully parsed document resolves (and the reference lookup agrees); on success the slice lies inside the input and parses to the identical value, ParseOnDemand yields it; on failure error != 0, slice empty, ParseOnDemand errors and stays null. Evaluations count (text,path) pairs."),
     "C11": dict(level="exploration", engine="ondemand",
                 jobs=lambda t: J("ondemand", "asan-hsw", ["--prop", "C11"]) + J("ondemand", "prod-hsw", ["--prop", "C11"]) +
@@ -98,7 +103,11 @@ CHECKS = {
                 jobs=lambda t: J("kernels", "prod-hsw", ["--prop", "C08"]) + J("kernels", "asan-hsw", ["--prop", "C08"]) + (J("kernels", "prod-wsm", ["--prop", "C08"]) if t == "thorough" else []),
                 rule="U64toa/I64toa output == snprintf(%llu/%lld), returned length exact, nothing written before the buffer or beyond out+32: every value below 10^8 (whole 1-8 digit kernel), every low 8-digit group under boundary high parts (whole vectorised splitter), all composed boundary values h*10^16+a*10^8+b, powers of 2 and 10 +-2, extremes; Serialize+Parse keeps the integer kind."),
     "C09": dict(level="exploration", engine="kernels",
-                jobs=lambda t: J("kernels", "prod-hsw", ["--prop", "C09"]) + J("kernels", "prod-wsm", ["--prop", "C09"]) + J("kernels", "asan-hsw", ["--prop", "C09"]),
+                jobs=lambda t: J("kernels", "prod-hsw", ["--prop", "C09"]) + J("kernels", "prod-wsm", ["--prop", "C09"]) + J("kernels", "asan-hsw", ["--prop", "C09"]) +
+                J("kernels", "asan-dyn", ["--prop", "C09", "--kernel", "sse"], label="asan-dyn/sse-kernel") + J("kernels", "asan-dyn", ["--prop", "C09", "--kernel", "avx2"], label="asan-dyn/avx2-kernel") +
+                J("kernels", "prod-dyn", ["--prop", "C09", "--kernel", "sse"], label="prod-dyn/sse-kernel") + J("kernels", "prod-dyn", ["--prop", "C09", "--kernel", "avx2"], label="prod-dyn/avx2-kernel") +
+                (J("kernels", "asan-wsm", ["--prop", "C09"]) + J("kernels", "prod-dyn", ["--prop", "C09"], label="prod-dyn/dispatched") if t == "thorough" else []),
+                budget=dict(quick=300, thorough=3000),
                 rule="internal::Quote on every length 0..100 with every byte value at every position and two special bytes at all position pairs; output validated byte by byte (verbatim copies, correct escapes, length <= 6n+2); production build: source ending 0..64 bytes before an unmapped page with three different in-page tails (output must not depend on them), destination exactly 6n+35 bytes before an unmapped page; ASan: exact-size heap source and destination."),
     "C14": dict(level="exploration", engine="kernels",
                 jobs=lambda t: J("kernels", "prod-hsw", ["--prop", "C14"]) + J("kernels", "asan-hsw", ["--prop", "C14"]) + J("kernels", "prod-wsm", ["--prop", "C14"]) + (J("kernels", "prod-dyn", ["--prop", "C14"]) if t == "thorough" else []),
@@ -108,11 +117,13 @@ CHECKS = {
                 rule="number spellings of families N1..N6 parsed as root, array element and object member: integer that fits -> exact integer kind; otherwise IsDouble with the bit pattern of glibc strtod; overflow -> kParseErrorInfinity. For the halfway families (exact midpoints between adjacent doubles, one unit below/above, re-spelled with the point at every position and up to 1100 mantissa digits) the expected double is computed exactly by big-integer arithmetic in the harness and glibc is cross-checked against it."),
     "C07": dict(level="exploration", engine="ftoaenum",
                 jobs=lambda t: J("ftoaenum", "prod-hsw", []) + (J("ftoaenum", "asan-hsw", ["--only", "D2_decimal_table_rows"]) + J("ftoaenum", "asan-hsw", ["--only", "D3b_format_switch_points"], label="asan-hsw/D3b") +
-                J("serenum", "asan-hsw", ["--only", "T5_number_packing"], label="asan-hsw/serializer-number-reserve")),
-                budget=dict(quick=100, thorough=2400),
+                J("serenum", "asan-hsw", ["--only", "T5_number_packing"], label="asan-hsw/serializer-number-reserve") +
+                J("serenum", "prod-hsw", ["--only", "T7_neighbouring_numbers"], label="prod-hsw/serializer-neighbouring-numbers")),
+                budget=dict(quick=200, thorough=4000),
                 rule="F64toa output per double: JSON number with fraction or exponent, <= 32 bytes, sign kept; strtod(out)==v and this library parses it back to the same bits; minimal digit count (neither (n-1)-digit grid neighbour reads back); closest among the shortest (exact big-integer comparison, ties accept either). Families: every binary exponent x boundary significand patterns, every decimal table row (d*10^k +-3ulp), all small integers, format switch points, single-precision values (thorough: all 2^32)."),
     "C16": dict(level="model_checking", engine="allocexplore",
-                jobs=lambda t: J("allocexplore", "asan-hsw", []) + J("allocexplore", "prod-hsw", []),
+                jobs=lambda t: J("allocexplore", "asan-hsw", []) + J("allocexplore", "prod-hsw", []) +
+                J("allocexplore", "asan-hsw-cap128", ["--only", "A_adaptive_base,A_adaptive_chunk100,A_adaptive_userbuf64"], label="asan-hsw/max-chunk-capacity-128"),
                 budget=dict(quick=120, thorough=2400),
                 rule="explicit-state BFS over operation histories of the real pool allocator (8 configurations: simple/adaptive policy, tracking base, own base, user buffers of several sizes/alignments); every transition executed on the implementation and checked: 8-byte alignment, containment in one chunk, pairwise disjointness, contents intact, Realloc prefix and in-place growth, zero size -> null, Size()/Capacity() accounting, copies share one pool, chunks returned exactly once and only when the last copy dies, user buffer never freed or overrun."),
     "C12": dict(level="model_checking", engine="domexplore",
@@ -133,13 +144,15 @@ CHECKS = {
                 rule="documents parsed from every accepted text of the families, API-built strings of every byte value/length/position, boundary integers and doubles, and non-finite doubles at every position, each serialised into 17 write-buffer start states (fresh, reused, reused after larger/smaller output, WriteBuffer(c) for 12 small capacities; exact-size reallocs under ASan): Serialize succeeds, all states give identical bytes, the output is accepted by the independent reference recogniser and denotes the same value with the same number kinds, Parse(output) is == the original, re-serialising gives identical bytes, ToString is NUL-terminated; non-finite -> kSerErrorInfinity and Dump()==''. Every state reached by the mutation-API BFS is round-tripped too (second job)."),
     "C17": dict(level="model_checking", engine="sched",
                 jobs=lambda t: J("sched", "sched-prod", []) + J("sched", "sched", ["--only", "SC_alloc_2threads_x2ops", "--bound", "1"], label="sched-asan/2threads-bound1") +
-                J("tsanrun", "tsan", [], env=TSAN_ENV) + J("tsanrun", "tsan-locked", [], env=TSAN_ENV),
-                budget=dict(quick=200, thorough=3000),
+                J("tsanrun", "tsan", [], env=TSAN_ENV) + J("tsanrun", "tsan-locked", [], env=TSAN_ENV) +
+                J("rodoc", "prod-hsw", [], label="prod-hsw/write-protected-document") + J("rodoc", "prod-wsm", [], label="prod-wsm/write-protected-document"),
+                budget=dict(quick=300, thorough=3000),
                 rule="preemption-bounded exhaustive schedule exploration of the real code under a serialising scheduler (hooked lock/shared-access points + operation boundaries); see per-family rules. States/transitions report the number of complete schedules executed."),
     "C15": dict(level="exploration", engine="cfgdigest", mode="digest_compare",
-                jobs=lambda t: J("cfgdigest", "prod-hsw", []) + J("cfgdigest", "prod-wsm", []) + J("cfgdigest", "prod-dyn", []) + J("cfgdigest", "asan-hsw", []) + J("cfgdigest", "asan-wsm", []) + J("cfgdigest", "asan-dyn", []),
-                budget=dict(quick=240, thorough=3000),
-                rule="differential across build configurations {static haswell, static westmere, runtime dispatch} x {production, ASan}: every case of the families gets a digest (accept/reject; parsed value and Dump() bytes; for failures outside string literals the error code; on-demand slice offset/length or error class for 8 paths; Serialize bytes of strings with every special byte at every position) and all six configurations must produce identical digests for every case. Error code/offset inside malformed string literals and all failure offsets are excluded, as the statement allows."),
+                jobs=lambda t: J("cfgdigest", "prod-hsw", []) + J("cfgdigest", "prod-wsm", []) + J("cfgdigest", "prod-dyn", []) + J("cfgdigest", "asan-hsw", []) + J("cfgdigest", "asan-wsm", []) + J("cfgdigest", "asan-dyn", []) +
+                J("dynkernels", "asan-dyn", [], label="asan-dyn/sse-vs-avx2-kernels") + J("dynkernels", "prod-dyn", [], label="prod-dyn/sse-vs-avx2-kernels"),
+                budget=dict(quick=300, thorough=3000),
+                rule="differential across build configurations {static haswell, static westmere, runtime dispatch} x {production, ASan}: every case of the families gets a digest (accept/reject; parsed value and Dump() bytes; for failures outside string literals the error code; on-demand slice offset/length or error class for 8 paths; Serialize bytes of strings with every special byte at every position) and all six configurations must produce identical digests for every case. Error code/offset inside malformed string literals and all failure offsets are excluded, as the statement allows. Two further jobs call the sse:: and avx2:: kernels of the runtime-dispatch build directly (string decoding, string / container / whitespace skipping, quoting) and demand identical results, because on this machine the dispatched entry points only ever select AVX2."),
 }
 
 
@@ -310,7 +323,7 @@ def do_check(prop, tier):
     bins = build_many([(j["engine"], j["config"]) for j in jobs])
     t_build = time.time() - t0
     known = load_known()
-    budget = float(os.environ.get("VERIF_BUDGET_S", "0") or 0) or (spec.get("budget", {}).get(tier) or (100 if tier == "quick" else 1500))
+    budget = float(os.environ.get("VERIF_BUDGET_S", "0") or 0) or (spec.get("budget", {}).get(tier) or (240 if tier == "quick" else 2400))
     per_job = max(10.0, budget / max(1, len(jobs)))
     tmpdir = os.path.join(build_dir(), "out")
     os.makedirs(tmpdir, exist_ok=True)
@@ -318,16 +331,21 @@ def do_check(prop, tier):
     violations = []   # (job, v)
     class_counts = {}
     digest_dirs = []
+    digest_jobs = []
     for ji, job in enumerate(jobs):
         outp = os.path.join(tmpdir, "%s-%s-%d-%d.json" % (prop, tier, ji, os.getpid()))
-        if spec.get("mode") == "digest_compare":
+        if spec.get("mode") == "digest_compare" and job["engine"] == "cfgdigest":
             dd = os.path.join(tmpdir, "dig-%s-%d-%d" % (prop, ji, os.getpid()))
             os.makedirs(dd, exist_ok=True)
             digest_dirs.append(dd)
+            digest_jobs.append(ji)
             job = dict(job)
             job["args"] = list(job["args"]) + ["--digest-dir", dd]
             jobs[ji] = job
-        res, dt = run_job(job, bins[(job["engine"], job["config"])], tier, per_job, outp)
+        # a job may use what earlier jobs left over, but never less than its equal share
+        t_used = time.time() - t0 - t_build
+        this_job = max(per_job, budget - t_used - 45.0 * (len(jobs) - ji - 1))
+        res, dt = run_job(job, bins[(job["engine"], job["config"])], tier, this_job, outp)
         os.unlink(outp)
         for f in res["families"]:
             f = dict(f)
@@ -343,13 +361,14 @@ def do_check(prop, tier):
     lines = []
     rc = 0
     if spec.get("mode") == "digest_compare":
-        violations += compare_digests(prop, tier, jobs, bins, digest_dirs, class_counts)
+        violations += compare_digests(prop, tier, [jobs[i] for i in digest_jobs], bins, digest_dirs, class_counts)
         for dd in digest_dirs:
             shutil.rmtree(dd, ignore_errors=True)
     n_known = 0
     n_viol = 0
     seen_known = set()
     reported = set()
+    unconfirmed = []
     for job, v in violations:
         k = match_known(prop, v["class"], known)
         if v.get("no_replay"):
@@ -366,8 +385,7 @@ def do_check(prop, tier):
                 v["detail"] = "[needs the preceding cases %d..%d of its chunk in the same process] " % (v["chunk_begin"], v["idx"] - 1) + v["detail"]
         if code == 0:
             # replay must reproduce, otherwise this is a harness problem, not a verdict
-            print("INTERNAL-ERROR property=%s violation did not reproduce on replay: %s %s idx=%s class=%s" % (prop, job["label"], v["family"], v["idx"], v["class"]))
-            rc = max(rc, 2)
+            unconfirmed.append("property=%s violation did not reproduce on replay: %s %s idx=%s class=%s" % (prop, job["label"], v["family"], v["idx"], v["class"]))
             continue
         if k:
             n_known += 1
@@ -385,6 +403,14 @@ def do_check(prop, tier):
         lines.append("  class=%s job=%s family=%s idx=%s input=%r" % (v["class"], job["label"], v["family"], v["idx"], bytes.fromhex(v.get("input_hex", ""))[:120]))
         lines.append("  " + v["detail"][:600])
         rc = max(rc, 1)
+
+    # a recorded violation that does not reproduce is not a verdict.  When other violations of the same run
+    # DO reproduce (typical for a defect that reads bytes it does not own: some witnesses depend on what happens
+    # to lie there) the confirmed ones decide and the rest are listed; when none does, the run is an internal error.
+    for u in unconfirmed:
+        print(("UNCONFIRMED " if rc == 1 else "INTERNAL-ERROR ") + u)
+    if unconfirmed and rc == 0:
+        rc = 2
 
     # evidence
     total_eval = sum(f["evaluations"] for f in fam_rows)
